@@ -233,8 +233,30 @@ def rule_text(r):
 # generation
 # ---------------------------------------------------------------------------
 
-def glyph_list_text(gl):
-    """glyphid(...) text for an explicit list, using ranges where contiguous."""
+def glyph_list_text(gl, rng=None, first_cp=0x61):
+    """glyphid(...) text for an explicit list, using ranges where contiguous. With rng (fonts made by ttf.simple_font:
+    glyph i is mapped from first_cp + i - 2): the same glyphs may be written through the cmap instead, as
+    codepoint('c'..'f'), codepoint("cdef"), unicode(0x63..0x66) or U+0063..U+0066."""
+    if rng is not None and gl and all(g >= 2 and 0x61 <= first_cp + g - 2 <= 0x7a for g in gl) and rng.random() < 0.35:
+        cps = [first_cp + g - 2 for g in gl]
+        parts = []
+        i = 0
+        while i < len(cps):
+            j = i
+            while j + 1 < len(cps) and cps[j + 1] == cps[j] + 1:
+                j += 1
+            form = rng.choice(["cpc", "cpn", "uni", "U+", "str"])
+            if j > i:
+                a, b = cps[i], cps[j]
+                parts.append({"cpc": "codepoint('%c'..'%c')" % (a, b), "cpn": "codepoint(%d..0x%x)" % (a, b),
+                              "uni": "unicode(0x%04x..0x%04x)" % (a, b), "U+": "U+%04X..U+%04X" % (a, b),
+                              "str": 'codepoint("%s")' % "".join(chr(c) for c in cps[i:j + 1])}[form])
+            else:
+                a = cps[i]
+                parts.append({"cpc": "codepoint('%c')" % a, "cpn": "codepoint(%d)" % a, "uni": "unicode(0x%04x)" % a,
+                              "U+": "U+%04X" % a, "str": 'codepoint("%c")' % a}[form])
+            i = j + 1
+        return parts[0] if len(parts) == 1 else "(%s)" % ", ".join(parts)
     parts = []
     i = 0
     while i < len(gl):
@@ -338,7 +360,7 @@ def gen_class_program(rng, size="small"):
                     gl = list(range(st, min(hi, st + k)))
                 else:
                     gl = rng.sample(range(lo, hi), min(k, hi - lo))
-                parts.append(glyph_list_text(gl))
+                parts.append(glyph_list_text(gl, rng))
                 tr.append({"k": "glyphs", "g": gl})
             else:
                 c = rng.choice(cands)
